@@ -97,6 +97,18 @@ def _conic_height_for_angle(R, e, F, U):
     return lo
 
 
+def window_paraboloid(R, fno, n):
+    """A plane-parallel window (index n) in the collimated beam in front of a paraboloid mirror:
+    still stigmatic.  After two refractions at normal incidence the direction cosine N of an
+    axis-parallel ray is 1 only up to rounding (n = 1.3, 1.5, 1.7: one ulp off; n = 2: exact)."""
+    R = -abs(R)
+    tw = 0.1 * abs(R)
+    return {"fam": "window_paraboloid", "obj": INF, "stop": 1, "ap": ("EPD", abs(R) / 2 / fno),
+            "surfs": [dict(R=INF, k=0.0, mat=float(n), t=tw, el=("plane_refr", 0, 1)),
+                      dict(R=INF, k=0.0, mat="air", t=0.2 * abs(R), el=("plane_refr", 0, 1)),
+                      dict(R=R, k=-1.0, mat="mirror", t=R / 2, el=("conic_mirror", 1, 1))]}
+
+
 def hyperbolic_lens(R, n_num, n_den, fno, thick=0.2):
     """Plano-hyperbolic singlet: plane, glass n, hyperboloid k = -n^2 (R < 0), focus at R/(1 - n)."""
     n = n_num / n_den
@@ -183,7 +195,7 @@ def aplanatic(R, nc, n2, fno, frac, meniscus):
 def fold(s, dfrac=None):
     """The mirror image of `s` behind a plane fold mirror: every radius and thickness changes sign."""
     first = s["surfs"][0]
-    scale = abs(first["R"]) if math.isfinite(first["R"]) else abs(s["surfs"][1]["R"])
+    scale = next(abs(x["R"]) for x in s["surfs"] if math.isfinite(x["R"]))     # the first curved surface
     # the first surface must stay clear of the fold mirror: its deepest sag is below 0.7 of the object
     # distance in every finite-object family of the grid, and below R/8 for the collimated ones
     if dfrac is None:
